@@ -441,7 +441,7 @@ class C19(common.Prop):
         gl.rotate_to_axis = r2a
         lf.rotate = rot
         out = {'nodes': [ids[x] for x in G.nodes], 'edges': [[ids[u], ids[v]] for u, v in G.edges], 'db': float(case['db']),
-               'exc': 0, 'pre': [], 'al': None, 'mid': [], 'lens': [], 'post': [],
+               'exc': 0, 'pre': [], 'al': None, 'ain': [], 'mid': [], 'lens': [], 'post': [],
                'zero': any(d.get('order', 1) == 0 for _, _, d in G.edges(data=True))}
         state = np.random.get_state()
         try:
@@ -464,18 +464,19 @@ class C19(common.Prop):
         out['pre'] = [[ids[k], p] for k, p in rec.get('pre', [])]
         out['lens'] = rec['lens']
         nan = float('nan')
+        keys = [k for k, _ in out['pre']]
         if align is None and not rec['r2a'] and not rec['rot']:
-            out['mid'] = out['pre']
+            pass
         elif align is not None and len(rec['r2a']) == 1 and len(rec['rot']) == 1 and rec['rot'][0][2] == 0 \
-                and rec['r2a'][0][0] == [p for _, p in out['pre']] and len(rec['r2a'][0][1]) == len(out['pre']):
-            # one rotate_to_axis call on the values of the dict in dict order -> one rotate(positions, angle) call about
-            # the default origin; row idx of the result belongs to the idx-th key
+                and len(rec['r2a'][0][0]) == len(keys) and len(rec['r2a'][0][1]) == len(keys):
+            # one rotate_to_axis call -> one rotate(positions, angle) call about the default origin; row idx belongs to
+            # the idx-th key of the dict (Coq compares the rows that went in with the current dict of the model)
             out['al'] = [rec['rot'][0][0], rec['rot'][0][1]]
-            out['mid'] = [[k, [float(r[0]), float(r[1])]] for (k, _), r in zip(out['pre'], rec['r2a'][0][1])]
+            out['ain'] = [[k, [float(r[0]), float(r[1])]] for k, r in zip(keys, rec['r2a'][0][0])]
+            out['mid'] = [[k, [float(r[0]), float(r[1])]] for k, r in zip(keys, rec['r2a'][0][1])]
         else:
             # the alignment did not happen the way the model says (no call / several calls / other argument)
             out['al'] = [nan, nan]
-            out['mid'] = out['pre']
         out['post'] = [[ids[k], [float(v[0]), float(v[1])]] for k, v in pos.items()]
         return out
 
@@ -568,8 +569,8 @@ class C19(common.Prop):
         pl = lambda t: lit.lst([lit.pair(lit.z(k), v2(p)) for k, p in t])
         if case['kind'] == 'layout':
             al = 'None' if impl.get('al') is None else '(Some (%s, %s))' % (fhex(impl['al'][0]), fhex(impl['al'][1]))
-            return '(CLayout %s %s %s %s %s %s %s %s %s)' % (zl(impl['nodes']), ed, fhex(impl['db']), lit.nat(impl['exc']),
-                                                            pl(impl['pre']), al, pl(impl.get('mid', [])),
+            return '(CLayout %s %s %s %s %s %s %s %s %s %s)' % (zl(impl['nodes']), ed, fhex(impl['db']), lit.nat(impl['exc']),
+                                                            pl(impl['pre']), al, pl(impl.get('ain', [])), pl(impl.get('mid', [])),
                                                             lit.lst([fhex(x) for x in impl['lens']]), pl(impl['post']))
         if case['kind'] == 'fix':
             ty = {0: 'EzTrans', 1: 'EzCis', 2: 'EzOther'}
